@@ -353,9 +353,58 @@ def selfcheck():
         raise HarnessError('C13 statement counter self-check failed')
 
 
+def gen_atheris(seconds):
+    """Run two coverage-guided campaigns (empty corpus; corpus of valid scripts) in subprocesses and yield what they
+    recorded (violating inputs first, then a sample of the final corpora) as cases for check_string."""
+    def gen():
+        import shutil
+        import subprocess
+        import tempfile
+        from .. import c13_fuzz
+        seed = int(os.environ.get('VERIF_SEED', '1') or 1)
+        out = tempfile.mkdtemp(prefix='fsicverif-atheris-')
+        try:
+            penv = dict(os.environ)
+            deps = os.path.join(env.VERIF, '.deps')
+            penv['PYTHONPATH'] = deps + os.pathsep + env.VERIF + os.pathsep + penv.get('PYTHONPATH', '')
+            procs = [subprocess.Popen([sys.executable, '-m', 'fsicverif.c13_fuzz', out, str(seed), str(seconds), mode],
+                                      cwd=env.VERIF, env=penv, stdout=subprocess.DEVNULL, stderr=subprocess.PIPE, text=True)
+                     for mode in ('empty', 'scripts')]
+            stats = []
+            for pr in procs:
+                try:
+                    _, err = pr.communicate(timeout=seconds + 300)
+                except subprocess.TimeoutExpired:
+                    pr.kill()
+                    _, err = pr.communicate()
+                stats.append([ln for ln in (err or '').splitlines() if 'number_of_executed_units' in ln or 'ModuleNotFoundError' in ln])
+            yield {'s': '', 'atheris': str(stats)[:300]}
+            seen = set()
+            found = os.path.join(out, 'found')
+            for fn in sorted(os.listdir(found)) if os.path.isdir(found) else []:
+                text = open(os.path.join(found, fn), encoding='utf-8').read()
+                if text not in seen:
+                    seen.add(text)
+                    yield {'s': text, 'atheris': 'found'}
+            for mode in ('empty', 'scripts'):
+                d = os.path.join(out, 'corpus-' + mode)
+                for fn in sorted(os.listdir(d))[:4000] if os.path.isdir(d) else []:
+                    text = c13_fuzz.decode(open(os.path.join(d, fn), 'rb').read())
+                    if text not in seen:
+                        seen.add(text)
+                        yield {'s': text, 'atheris': mode}
+        finally:
+            shutil.rmtree(out, ignore_errors=True)
+    return gen
+
+
 def phases(tier):
     quick = tier == 'quick'
-    return [
+    extra = []
+    if not quick:
+        extra = [Phase('atheris-campaigns', check_string, gen=gen_atheris(int(os.environ.get('VERIF_ATHERIS_S', '120'))), shards=1,
+                       note='two libFuzzer campaigns (empty corpus / valid scripts); every recorded input is re-judged here')]
+    return extra + [
         Phase('strings', check_string, gen=gen_strings(3, 3, 3) if quick else gen_strings(4, 4, 4), exhaustive=True),
         Phase('mutated-scripts', check_mutant, strategy=strat_mutants, examples=4000 if quick else 120000),
         Phase('valid-and-canary-scripts', check_valid, strategy=strat_valid, examples=1500 if quick else 30000),
